@@ -2,6 +2,7 @@
 //! properties: C02 C08 C04 C14
 //! note: forward admission arithmetic (fee and CLTV) and the timing lemma over the extracted constants
 //! trusted: R15 (statement slicing): should_broadcast_holder_commitment_txn scans hash maps through a function-local macro_rules!; the unit extracts the go-on-chain test of scan_commitment! verbatim (both inequalities) as a function of (htlc, direction, height, preimage known); the scan itself is dropped and not claimed
+//! trusted: R15/R18 (deep slice + captures): should_broadcast_holder_commitment_txn: the statement computing htlc_outbound inside scan_commitment! and the second argument of the macro's three invocations (our commitment, the counterparty's current and previous commitment), combined into one function of (htlc, which kind of commitment)
 //! plemma: C08 lemma_forward_race / lemma_on_chain_heights_close_the_race: with the extracted constants and the extracted on-chain test, a silent or last-moment downstream peer never costs the upstream HTLC
 //! trusted: R15 (statement slicing): create_recv_pending_htlc_info is ~150 lines over onion payload types; the unit extracts, on every run, its three consecutive acceptance tests (final CLTV vs onion, PaymentClaimBuffer, amount) with their conditions verbatim and checks them as one function of the variables they read; the rest of the function is dropped and not claimed
 //! trusted: assume_specification for Result::or_else (std definition)
@@ -273,6 +274,29 @@ pub struct HTLCOutputInCommitment { pub cltv_expiry: u32, pub offered: bool }
     htlc.cltv_expiry <= height + CLTV_CLAIM_BUFFER
 //@with
     htlc.cltv_expiry < height + CLTV_CLAIM_BUFFER
+//@end
+//@extract lightning/src/chain/channelmonitor.rs :: impl ChannelMonitorImpl :: fn should_broadcast_holder_commitment_txn
+//@metavars
+//@capture R15
+    scan_commitment!(holder_commitment_htlcs!(self, CURRENT), $own:seq);
+//@capture R15 nth=1
+    scan_commitment!(htlc_outputs.iter().map(|&(ref a, _)| a), $cp1:seq);
+//@capture R15 nth=2
+    scan_commitment!(htlc_outputs.iter().map(|&(ref a, _)| a), $cp2:seq);
+//@slice R15
+    let htlc_outbound = $ho:seq; if (
+//@with
+    fn htlc_is_ours_to_time_out(htlc: &HTLCOutputInCommitment, on_holder_commitment: bool) -> bool {
+        let m_holder_tx = if on_holder_commitment { $own } else { $cp1 && $cp2 };
+        let htlc_outbound = $ho; htlc_outbound
+    }
+//@ret r
+//@ensures P C08 an-htlc-counts-as-outbound-when-we-offered-it-on-our-own-commitment-or-were-offered-it-on-either-unrevoked-counterparty-commitment
+    r == (on_holder_commitment == htlc.offered),
+//@mutant counterparty_commitments_scanned_as_if_ours
+    scan_commitment!(htlc_outputs.iter().map(|&(ref a, _)| a), false); } } if let Some(ref txid) = self.funding.prev_counterparty_commitment_txid
+//@with
+    scan_commitment!(htlc_outputs.iter().map(|&(ref a, _)| a), true); } } if let Some(ref txid) = self.funding.prev_counterparty_commitment_txid
 //@end
 // ---- what is actually offered downstream (deep R15 slice of ChannelManager::process_forward_htlcs: the first three arguments of the queue_add_htlc call) ----
 #[derive(Clone, Copy)] pub struct FwdPaymentHash(pub [u8; 32]);
